@@ -232,7 +232,9 @@ class ExcelCompiler:
         if not is_json:
             with open(filename, 'w') as f:
                 ymlo = YAML()
-                ymlo.width = 120
+                # no folding: a folded plain scalar does not read back as
+                # written (two spaces or a tab at the fold)
+                ymlo.width = 2 ** 31
                 ymlo.dump(extra_data, f)
         else:
             with open(filename, 'w') as f:
